@@ -282,16 +282,21 @@ pub fn gen_case(t: &mut Tape) -> Case {
         let want = if exact && i + 1 == n {
             room - 3
         } else {
-            match t.weighted(&[4, 4, 2, 1]) {
+            match t.weighted(&[4, 4, 2, 1, 2, 1]) {
                 0 => t.usize_in(0, 4),
                 1 => t.usize_in(0, 60),
                 2 => *t.pick(&[255usize, 256, 257, 1000]),
-                _ => *t.pick(&[65535usize, 30000, 65532, 4096]),
+                3 => *t.pick(&[65535usize, 30000, 65532, 4096]),
+                4 => t.usize_in(0, 600),
+                _ => {
+                    let p = 1usize << t.usize_in(2, 13);
+                    p + t.usize_in(0, 4) - 2
+                }
             }
         };
         let len = want.min(room - 3);
         room -= 3 + len;
-        tlvs.push(Tlv { named, kind: t.byte(), len, seed: t.u32() | 1 });
+        tlvs.push(Tlv { named, kind: t.byte(), len, seed: crate::engine::gen_seed(t) });
     }
     Case { cmd: t.below(2) as u8, proto: t.below(3) as u8, addr, tlvs, route: t.below(7) as u8 }
 }
@@ -304,5 +309,42 @@ pub fn run(r: &mut Runner) -> &'static str {
         .into();
     let n = r.n(100_000, 3_000_000);
     r.random("c07.build-parse", n, 160, &gen_case, &judge);
+    // grid: every registered type and a few raw kind bytes x every value length in a range x 5 content classes
+    // (random, all zero, all 0xFF, ASCII, signature-like), as the only TLV and behind a first TLV; families and routes rotate
+    let top: usize = if r.quick() { 160 } else { 1400 };
+    let grid = |shard: usize, nshards: usize, st: &mut Stats, stop: &std::sync::atomic::AtomicBool| -> Option<(Case, Fail)> {
+        let addrs = [
+            RefAddr2::Unspec,
+            RefAddr2::V4 { src: [192, 0, 2, 1], dst: [198, 51, 100, 7], sport: 51234, dport: 443 },
+            RefAddr2::V6 { src: 0x20010db8_00000000_00000000_00000001, dst: 0x20010db8_00000000_00000000_00000002, sport: 1, dport: 2 },
+            RefAddr2::Unix { src: vec![b'/'; 108], dst: vec![0u8; 108] },
+        ];
+        let kinds: Vec<(Option<usize>, u8)> = (0..12).map(|i| (Some(i), 0u8)).chain([0x00u8, 0x03, 0x04, 0x06, 0x20, 0x26, 0x30, 0xE0, 0xEE, 0xFF].into_iter().map(|k| (None, k))).collect();
+        let mut idx = 0usize;
+        for len in 0..=top {
+            if stop.load(std::sync::atomic::Ordering::Relaxed) {
+                return None;
+            }
+            for (named, kind) in &kinds {
+                for seed in [len as u32 * 2 + 1, 0, crate::engine::SEED_ONES, crate::engine::SEED_ASCII, crate::engine::SEED_CRLF] {
+                    idx += 1;
+                    if idx % nshards != shard {
+                        continue;
+                    }
+                    let mut tlvs = vec![Tlv { named: *named, kind: *kind, len, seed }];
+                    if idx % 3 == 0 {
+                        tlvs.insert(0, Tlv { named: None, kind: 0x04, len: idx % 5, seed: 1 });
+                    }
+                    let c = Case { cmd: (idx % 2) as u8, proto: (idx % 3) as u8, addr: addrs[(idx / 7) % 4].clone(), tlvs, route: (idx % 7) as u8 };
+                    if let Err(f) = judge(&c, st) {
+                        return Some((c, f));
+                    }
+                }
+            }
+        }
+        None
+    };
+    let gspace = format!("12 registered types + 10 raw kind bytes x every value length 0..={} x 5 content classes (random, zeros, 0xFF, ASCII, signature-like); family, command, transport and build route rotate", top);
+    r.bulk("c07.grid", Some(&gspace), &grid, &judge);
     "exploration"
 }
